@@ -122,7 +122,10 @@ def run_fullapp_shard(args):
     summ = dict(fullapp_histories=0, fullapp_steps=0, fullapp_transactions=0, fullapp_accepted=0, fullapp_foreign_signatures=0, fullapp_blocks=0, fullapp_app_exports=0, mismatches=0)
     with open(outf, "w") as o:
         for l in open(logf, errors="replace"):
-            if l.startswith("FULLDIFF"):
+            if l.startswith("FULLCHECK"):
+                o.write("CHECK " + l[len("FULLCHECK "):])
+                summ["checkfails"] = summ.get("checkfails", 0) + 1
+            elif l.startswith("FULLDIFF"):
                 o.write("MISMATCH " + l[len("FULLDIFF "):])
                 summ["mismatches"] += 1
             elif l.startswith("FULLSUMMARY"):
